@@ -28,8 +28,12 @@ RULES = {
     "R5": "the node container of a graph is never replaced: `_nodes` is bound once, in Graph.__init__ - iterators in "
     "flight hold boxes of that container object, so an operation that rebuilds it (instead of relinking inside it) cuts them "
     "off from every later edit",
+    "R7": "the iterators a graph or function hands out (`__iter__`, `__reversed__`, `all_nodes` - the non-generator methods "
+    "annotated as returning an Iterator) are chosen and built without looking at the current contents: no condition in the "
+    "method reads through `self`, and nothing derived from `self` is materialised (list/tuple/sorted …) - a decision or "
+    "a copy taken before iteration starts is stale after the first edit",
 }
-FLOORS = {"R1": 3, "R2": 4, "R3": 8, "R4": 3, "R5": 1, "R6": 5}
+FLOORS = {"R1": 3, "R2": 4, "R3": 8, "R4": 3, "R5": 1, "R6": 5, "R7": 6}
 EXPLANATION = (
     "Checks the structural invariants the tombstone scheme of the doubly linked node list depends on: who writes "
     "which link, control dependence of every yield on the erased test, paired updates of length and map (CFG "
@@ -386,8 +390,58 @@ def rule_r6(ctx):
                       construct=f"{oname} reads {a}")
 
 
+_MATERIALISERS = {"list", "tuple", "sorted", "set", "frozenset", "dict", "collections.deque", "deque"}
+
+
+def rule_r7(ctx):
+    n = 0
+    for ck in ("onnx_ir._core:Graph", "onnx_ir._core:Function", "onnx_ir._core:GraphView"):
+        k = ctx.repo.cls(ck)
+        for f in k.methods.values():
+            if isinstance(f.node, ast.Lambda) or f.node.returns is None or "Iterator" not in norm(f.node.returns):
+                continue
+            if any(isinstance(x, (ast.Yield, ast.YieldFrom)) for x in own_nodes(f.node)):
+                continue  # generators run their body lazily, step by step (R2 / R4)
+            n += 1
+            me = f.params[0] if f.params else "self"
+
+            def reads_self(e):
+                return any(isinstance(x, ast.Name) and x.id == me for x in ast.walk(e))
+
+            bad = None
+            why = ""
+            for x in own_nodes(f.node):
+                test = None
+                if isinstance(x, (ast.If, ast.While, ast.IfExp, ast.Assert)):
+                    test = x.test
+                elif isinstance(x, ast.BoolOp):
+                    test = x
+                elif isinstance(x, ast.comprehension):
+                    test = x.iter
+                elif isinstance(x, (ast.For,)):
+                    test = x.iter
+                elif isinstance(x, ast.Try):
+                    test = None
+                if test is not None and reads_self(test):
+                    bad, why = x if not isinstance(x, ast.comprehension) else test, "decides by (or loops over) the contents at call time"
+                    break
+                if isinstance(x, ast.Call) and (dotted_of(x.func) or "") in _MATERIALISERS and any(reads_self(a) for a in x.args):
+                    bad, why = x, "materialises the contents at call time"
+                    break
+                if isinstance(x, (ast.ListComp, ast.SetComp, ast.DictComp)) and reads_self(x):
+                    bad, why = x, "materialises the contents at call time"
+                    break
+            ctx.check("R7", f"{f.local}: the iterator is built without looking at the contents", bad is None, f, bad if bad is not None else f.node,
+                      f"{f.local} {why} (`{norm(bad)[:70] if bad is not None else ''}`): what is decided or copied before the iteration starts is "
+                      "stale once the graph is edited during the iteration - nodes (or subgraphs) inserted after the current position are not yielded, "
+                      "and two iterators taken before and after the edit disagree",
+                      how="no condition / loop / materialising call in the method reads through self")
+    ctx.require(n >= 6, "iterator-returning methods of Graph / Function / GraphView not found")
+
+
 def run(ctx):
     rule_r5(ctx)
+    rule_r7(ctx)
     rule_r6(ctx)
     rule_r1(ctx)
     rule_r2(ctx)
